@@ -1,3 +1,4 @@
+import Clover.Generated.Facts
 import Clover.Props.C04
 import Clover.Spec.Spec
 import Clover.Proofs.RefineReads
@@ -76,5 +77,20 @@ theorem count_is_length_any_plan (s : Spec.State) (σ : KVS) (hw : WF s) (hr : R
     (hq : q.crit = some cr) (coll : Spec.Coll) (hl : Spec.lookup q.coll s = some coll) (hdomain : KeyDomain q coll) :
     (withTx false (Op.body likeFn fnFam (.count q)) noFault σ).1 = (Spec.step likeFn fnFam s (.count q)).1 :=
   count_exact_any_plan likeFn fnFam s σ hw hr q cr hq coll hl hdomain
+
+end CV.Props.C09
+
+namespace CV.Props.C09
+
+/-- (facts, regenerated from the source on every run) **The decision logic the model transcribes is the
+    decision logic of the current source**: the derived reads (`Count` with its stored-size shortcut `countCollection`, `Exists`, `FindFirst`) — what `Op.body (.count/.exists_/.findFirst)` and `countWindow` transcribe.  The text is the functions' bodies with comments and layout
+    removed.  Any edit of these functions breaks this theorem at build time; the check then searches
+    with the property's own oracles for a failing input (and reports `no-failing-input-found` if the
+    edit was harmless: the model then has to be re-validated against the new text). -/
+theorem source_decision_logic : CV.Facts.logicC09 = [
+  "clover.DB.Count: { q, err := normalizeCriteria(q) if err != nil { return -1, err } if q.Criteria() == nil { return db.countCollection(q) } num := 0 err = db.IterateDocs(q, func(doc *d.Document) error { num++ return nil }) return num, err }", 
+  "clover.DB.Exists: { doc, err := db.FindFirst(q) return doc != nil, err }", 
+  "clover.DB.FindFirst: { docs, err := db.FindAll(q.Limit(1)) var doc *d.Document if len(docs) > 0 { doc = docs[0] } return doc, err }", 
+  "clover.DB.countCollection: { size, err := db.getCollectionSize(q.Collection()) size -= q.GetSkip() if size < 0 { size = 0 } if q.GetLimit() >= 0 && q.GetLimit() < size { return q.GetLimit(), err } return size, err }"] := by rfl
 
 end CV.Props.C09
